@@ -87,8 +87,28 @@ def gen_div(r, nd=None, solve=False):
             b = [r.randint(0, n - 1) for n in nxg]
         f = [V.dyadic(r, -16, 16) for _ in range(nd)]
         ev.append((b, f))
+    ramp = False
+    if not solve and r.random() < 0.3:
+        # aim at the smoothing ramp: neighbouring bins whose counts sit on minSamples, minSamples+1, fullSamples-1,
+        # fullSamples, fullSamples+1 and 0 (a bin below minSamples next to bins above it), smoothed gradients
+        ramp = True
+        hs, sm = True, (r.random() < 0.8)
+        fulls = r.choice([3, 4, 5])
+        mins = r.randint(0, fulls - 2)
+        nxg = [max(n, 2) for n in nxg]
+        targets = [mins, mins + 1, fulls - 1, fulls, fulls + 1, 0, 1]
+        import itertools
+        bins = list(itertools.product(*[range(n) for n in nxg]))
+        r.shuffle(bins)
+        ev = []
+        for b, cnt in zip(bins, targets * 4):
+            for _ in range(cnt):
+                ev.append((list(b), [V.dyadic(r, -16, 16) for _ in range(nd)]))
+        r.shuffle(ev)
+        npre = r.choice([0, 0, min(3, len(ev))])
+        nev = len(ev) - npre
     return {"nd": nd, "per": per, "nxg": nxg, "w": w, "hs": int(hs), "sm": int(sm), "mins": mins, "fulls": fulls,
-            "npre": npre, "nev": nev, "ev": ev}
+            "npre": npre, "nev": nev, "ev": ev, "ramp": ramp}
 
 
 def div_line(c, cmd="DIV", tail=""):
@@ -488,6 +508,8 @@ def check(run):
         run.dist("div:smoothed=%d" % c["sm"])
         run.dist("div:min_bins_per_dim=%d" % min(c["nxg"]))
         run.dist("div:anisotropic=%d" % (len(set(c["w"])) > 1))
+        if c.get("ramp"):
+            run.dist("div:counts-on-the-smoothing-ramp,smoothed=%d" % c["sm"])
         tie("div", l1, io1, mo1)
         tie("div", l2, io2, mo2)
         for (l, io) in ((l1, io1), (l2, io2)):
@@ -600,6 +622,10 @@ def check(run):
             run.violation("solve:not-finite", "integrate() returned a non-finite surface [case: %s]" % l[:400], {"kind": "unit", "case": l, "impl": so[:2000]})
             continue
         rn = math.sqrt(sum((float(u) - v) ** 2 for u, v in zip(Ax, b)))
+        # envelope of |true residual - recurred residual| / |b| by iteration count (floating-point drift; recorded, not judged)
+        bucket = "1-4" if it <= 4 else "5-16" if it <= 16 else "17-64" if it <= 64 else "65+"
+        dr = run.cov["correspondence"].setdefault("residual_drift_envelope", {})
+        dr[bucket] = max(dr.get(bucket, 0.0), abs(rn / bn - err))
         if conv and not (err <= tol):
             run.violation("solve:stopped-early", "integrate() stopped after %d < %d iterations with reported error %g > tol [case: %s]" % (it, itmax, err, l[:400]),
                           {"kind": "unit", "case": l, "impl": so[:2000]})
